@@ -175,6 +175,28 @@ func (e *explorer) explore() *Violation {
 			if v := e.runOne(s, "single_preemption"); v != nil {
 				return v
 			}
+			// kind-directed second preemption: if somebody waited on / signalled the resize condition in
+			// that run, also pause every other thread at its first Cond.Wait (between the flag check and
+			// the enqueue) resp. at its first Broadcast — the windows of lost wake-ups
+			r := e.lastOut.R
+			if r == nil {
+				continue
+			}
+			var kinds []int
+			if r.CondWaits > 0 {
+				kinds = append(kinds, int(vs.KCondWait))
+			}
+			if r.Broadcasts > 0 && r.Blocks+r.CondWaits > 0 {
+				kinds = append(kinds, int(vs.KCondSignal))
+			}
+			for _, kd := range kinds {
+				for _, o := range ord[1:] {
+					s2 := &Sched{Kind: "pct", Prio: prioFromOrder(ord), Changes: []vs.Change{{Thread: t, Step: k}, {Thread: o, Step: 1, Kind: kd}}}
+					if v := e.runOne(s2, "kind_directed_double_preemption"); v != nil {
+						return v
+					}
+				}
+			}
 		}
 	}
 	// 3. sampled deeper PCT schedules
